@@ -22,10 +22,71 @@ def run_C14(ctx):
              spec_component="PCS", spec_tags={"11": "F11"})
 
 
+def run_C09(ctx):
+    corr_run(ctx, "journal", ["journal", "--n", n_cases(ctx, 2500, 150000)],
+             "Model/Tracer.v jop (journal instructions 0xe0-0xe7) vs single-frame programs on the real EVM",
+             nontrivial=lambda c: len(c.get("steps") or []) > 1, has_oracle=True)
+
+
+def run_C11(ctx):
+    corr_run(ctx, "tracerhist", ["tracerhist", "--n", n_cases(ctx, 2000, 100000)],
+             "Model/KeyTree.v + CallTree.v vs vm.Tracer exported API (SaveStateKey/SaveStateChange/SaveCall/ExitCall/TransferWithRecord and every query)",
+             nontrivial=lambda c: c["registrations"] >= 2, has_oracle=True)
+
+
+def run_C07(ctx):
+    corr_run(ctx, "tracerhist", ["tracerhist", "--n", n_cases(ctx, 1500, 60000)],
+             "Model/CallTree.v vs vm.Tracer SaveCall/ExitCall + CallTree accessors (Root/Current/FindCall/ParentOf/ChildrenOf)",
+             nontrivial=lambda c: c["calls"] >= 2, has_oracle=True)
+
+
 HOOK_COMMITS = []
 NOT_YET = {}
 
+COMMON_NOTE = ("Trusted: Coq 8.16.1 kernel; extraction (ExtrOcamlBasic only) + OCaml driver; the Go harness (generators, canonical dumps, "
+               "property oracles). Error texts are compared by class (out of gas / execution reverted / other). ")
+
 PROPS = {
+    "C09": {
+        "run": run_C09,
+        "technique": "Coq theorems (packed-field extraction and Solidity string round trip for all words/offsets/widths/contents/slots, any hash) + differential correspondence on journal programs + independent Solidity-layout oracle",
+        "level_text": "Theorems in Coq, for every storage word, offset, width, string content of any length, slot number and storage/hash function: the value journal "
+                      "records exactly Solidity's packed field, the reference journal exactly the string content, anything else is rejected and records nothing. "
+                      "The model (Model/Journal.v, Tracer.v) is run against the real instructions on generated programs (SSTOREs + journal opcodes) on 7 forks; "
+                      "an independent Solidity-layout decoder in the harness checks the implementation's recorded values directly.",
+        "level_note": COMMON_NOTE + "keccak256 is a parameter of the model (a table of the hashes the harness computed with go-ethereum's crypto package); "
+                      "Modelled rather than verified: vm/instructions.go:926-1140, vm/tracer.go.",
+        "rule": "programs of 1..10 journal steps (state-variable/nested registrations, value and reference change journals with SSTOREd contents: string lengths "
+                "0,1,2,30..33,63..65,100 with leading-zero/all-zero variants, slots 0,1,2,7,hashed) optionally ending in one hostile step (offset/width/pointer/length words over "
+                "0,1,31,32,33,2^63-1,2^63,2^64-1,2^64,2^255,2^256-1, invalid length encodings); non-trivial = at least 2 journal steps; distinct = distinct case lines",
+        "modelled": ["vm/instructions.go:926-1140 (journal instructions, loadDataFromMem)", "vm/tracer.go (StateChanges, CallTree, Tracer)"],
+        "assumptions": ["geth StateDB.GetState returns what SSTORE stored", "keccak256 as computed by go-ethereum/crypto"],
+    },
+    "C11": {
+        "run": run_C11,
+        "technique": "Coq invariant proof over all operation histories of the key tree + differential correspondence through the exported Tracer API + direct agreement oracle",
+        "level_text": "Theorems in Coq over every finite history of registrations / change journals / balance journals (any call index pattern): an invariant that makes the lookup by "
+                      "name and index path and the lookup by (slot, offset, type) reach the same record, visibility of a journaled change through both, refusal without modification, "
+                      "stability of bindings, exactness of reported child indices; histories are required to be consistent (a name is not re-registered with another location, a location not "
+                      "under another name) — shared slots with distinct offsets or types are consistent (Example). Model tied to vm/tracer.go by random histories through the exported API "
+                      "with every query answer compared, plus a pointer-equality oracle on the real objects.",
+        "level_note": COMMON_NOTE + "Go pointers are modelled as node ids, Go maps as association lists (first registration wins). Modelled rather than verified: vm/tracer.go:19-371.",
+        "rule": "random histories of 2..60 operations over 2 accounts x 5 slots x offsets {nil,0,1,16,31,32,2^64,2^200} x 3 type ids x 4 names x 5 index keys, mixed with "
+                "SaveCall/ExitCall/TransferWithRecord and all query kinds, closing sweep over every registered key; non-trivial = at least 2 successful registrations; distinct = distinct case lines",
+        "modelled": ["vm/tracer.go:19-371 (StorageChanges, StorageKey, StateChanges)"],
+        "assumptions": [],
+    },
+    "C07": {
+        "run": run_C07,
+        "technique": "Coq invariant proof over all add/exit sequences of the call tree (+ frame-level balance, see Exec) + differential correspondence through Tracer.SaveCall/ExitCall",
+        "level_text": "Theorems in Coq for every sequence of add/exit operations (balanced or not): children lists are exactly the increasing lists of the nodes whose parent they are, "
+                      "parents have smaller indices, each child is listed once, a balanced run restores the cursor (no call left open). Tied to vm/tracer.go by histories through the exported API "
+                      "with structural self-consistency checks of Root/Current/FindCall/ParentOf/ChildrenOf.",
+        "level_note": COMMON_NOTE + "Modelled rather than verified: vm/tracer.go:373-498; the frame-level claim (every EVM entry point issues a balanced sequence under every outcome) is carried by the Exec model.",
+        "rule": "random interleavings of SaveCall/ExitCall (incl. exits with no call open, unbalanced prefixes) inside tracer histories; non-trivial = at least 2 calls; distinct = distinct case lines",
+        "modelled": ["vm/tracer.go:373-498 (Call, CallTree)"],
+        "assumptions": [],
+    },
     "C14": {
         "run": run_C14,
         "technique": "Coq theorems (decoder refines unbounded ABI spec; attribution; no panic) over a hand-written model + differential correspondence model vs implementation",
